@@ -80,7 +80,7 @@ def write(prop, tier, seed, jobs, results, wall, nviol, knownhits):
             "samples": samples,
             "functions_under_contract": functions,
             "jobs": [{k: r.get(k) for k in ("job", "mode", "enforce", "replace", "functions", "outcome", "obligations",
-                                            "discharged", "solver", "solver_s", "wall_s", "classes", "bounded", "reason")}
+                                            "discharged", "solver", "solver_s", "max_rss_mb", "wall_s", "classes", "bounded", "reason")}
                      for r in results],
             "bounded_obligations": sum(r.get("obligations", 0) for r in bounded),
             "bounded_jobs": [{"job": r["job"], "bound": r.get("bounded"), "outcome": r["outcome"]} for r in bounded],
